@@ -23,7 +23,11 @@ pub async fn on_did_change_watched_files(
         let file_type = get_file_type(&file_event.uri);
         match file_type {
             Some(WatchedFileType::Lua) => {
-                if file_event.typ == FileChangeType::DELETED {
+                // Notifications are handled by independent tasks, so a DELETED event can be
+                // handled after a later event that re-created the file: the disk decides.
+                let deleted = file_event.typ == FileChangeType::DELETED
+                    && !uri_to_file_path(&file_event.uri).is_some_and(|path| path.exists());
+                if deleted {
                     // a document that is open in the editor keeps its editor text, as in the
                     // CREATED/CHANGED branch below; didClose removes it if it is still missing
                     if workspace.is_open_file(&file_event.uri) {
@@ -43,12 +47,12 @@ pub async fn on_did_change_watched_files(
                         continue;
                     }
 
-                    collect_lua_files(
-                        &mut watched_lua_files,
-                        file_event.uri,
-                        file_event.typ,
-                        encoding,
-                    );
+                    let typ = if file_event.typ == FileChangeType::DELETED {
+                        FileChangeType::CHANGED
+                    } else {
+                        file_event.typ
+                    };
+                    collect_lua_files(&mut watched_lua_files, file_event.uri, typ, encoding);
                 }
             }
             Some(WatchedFileType::Emmyrc) => {
